@@ -23,8 +23,10 @@ sound; `legacy_two_parents_witness`: the unfixed loop really yields a node with 
 `route()` (repair entered or not, any machine) returns a valid routing tree (for the unrepaired case on a machine
 with faults this needs `nerNet_leaves_are_dests`: childless nodes of the `ner_net` forest are destinations).
 Nothing about the model of the fixed code is left unproved; what is validated (not proved) is the correspondence
-of the model with the Python code (stage-wise differential testing with recorded tapes and set orders) and that
-`route()` treats the nets of a call independently.
+of the model with the Python code (stage-wise differential testing with recorded tapes and set orders, for single
+nets and net by net for calls with several nets).
+Round 4: `routeNets` (the `for net in nets` loop; only the oracle tape is threaded) with `routeNets_independent`,
+`routeNets_valid`, `routeNets_only_failure`: the multi-net clause is a theorem about the model plus correspondence.
 -/
 import RigModel.Model.C03
 import RigModel.Lemmas.C03Tree
